@@ -95,6 +95,24 @@ def parseOp (t : List String) : Option Op :=
   | "token" :: "update_params" :: r => do
     let p ← parseParams r
     some (.updateParams (arg r "authority") p)
+  | "token" :: "legacy_issue" :: r => do
+    let scale ← u32? (arg r "scale")
+    let init ← u64? (arg r "init")
+    let max ← u64? (arg r "max")
+    let m ← bool01? (arg r "mintable")
+    some (.legacyIssue (arg r "owner") (dash (arg r "symbol")) (dash (arg r "name")) (dash (arg r "minunit")) scale init max m)
+  | "token" :: "legacy_edit" :: r => do
+    let max ← u64? (arg r "max")
+    some (.legacyEdit (arg r "owner") (dash (arg r "symbol")) (dash (arg r "name")) max (dash (arg r "mintable")))
+  | "token" :: "legacy_mint" :: r => do
+    let n ← u64? (arg r "amount")
+    some (.legacyMint (arg r "owner") (dash (arg r "to")) (dash (arg r "symbol")) n)
+  | "token" :: "legacy_burn" :: r => do
+    let n ← u64? (arg r "amount")
+    some (.legacyBurn (arg r "sender") (dash (arg r "symbol")) n)
+  | "token" :: "legacy_transfer_owner" :: r =>
+    some (.legacyTransferOwner (arg r "src") (arg r "dst") (dash (arg r "symbol")))
+  | "token" :: "upgrade_erc20" :: r => some (.upgradeErc20 (arg r "authority") (arg r "impl"))
   | _ => none
 
 def accounts : List String := ["A0", "A1", "A2", "A3", "FC", "TM"]
@@ -127,7 +145,7 @@ def showState (s : State) : String :=
   let evm := sortStrings ((s.evm.filter fun (_, v) => v != 0).map fun ((c, h), v) => s!"{kName c}/{h}:{v}")
   s!"toks={joinWith "," toks} mu={joinWith "," mu} own={joinWith "," own} ctr={joinWith "," ctr} " ++
   s!"burned={joinWith "," burned} params={p.taxRate.raw}:{undash p.feeDenom}:{p.feeAmt}:{p.mintRatio.raw}:{if p.erc20 then 1 else 0}:{if p.beacon then 1 else 0} " ++
-  s!"bal={joinWith "," bal} sup={joinWith "," sup} nonce={s.nonce} evm={joinWith "," evm} fault={s.fault}"
+  s!"bal={joinWith "," bal} sup={joinWith "," sup} nonce={s.nonce} evm={joinWith "," evm} fault={s.fault} impl={s.impl}"
 
 def parseBals (e : String) : Option (AMap (Addr × Denom) Nat) := do
   let mut m : AMap (Addr × Denom) Nat := []
@@ -154,7 +172,11 @@ def parseReset (r : List String) : Option State := do
       let q ← ratio.toInt?
       reg := AMap.set reg src (dst, ⟨q⟩)
     | _ => none
-  return genesis { bal := bal, supply := [("stake", stake0)] } p
+  -- supplies: the native token as given; any other funded denomination (IBC vouchers) is what was funded
+  let mut sup : AMap Denom Nat := [("stake", stake0)]
+  for ((_, d), v) in bal do
+    if d ≠ "stake" then sup := AMap.set sup d (AMap.getD sup d 0 + v)
+  return genesis { bal := bal, supply := sup } p
     { blocked := listOf (dash (arg r "blocked")), registry := reg }
 
 /-- parse an observation line of the implementation into a state (configuration from `env`) -/
@@ -213,7 +235,8 @@ def parseState (env : Env) (t : List String) : Option State := do
     | _ => none
   s := { s with bank := { bal := bal, supply := sup } }
   let nonce ← natArg? t "nonce"
-  s := { s with nonce := nonce, fault := arg t "fault" }
+  let impl ← arg? t "impl"
+  s := { s with nonce := nonce, fault := arg t "fault", impl := impl }
   for e in listOf (arg t "evm") do
     match e.splitOn ":" with
     | [key, v] =>
